@@ -15,7 +15,14 @@
 package main
 
 import (
+	"crypto/ecdsa"
+	"crypto/elliptic"
+	crand "crypto/rand"
+	"crypto/x509"
+	"crypto/x509/pkix"
 	"encoding/json"
+	"encoding/pem"
+	"math/big"
 	"flag"
 	"fmt"
 	"os"
@@ -649,13 +656,768 @@ func main() {
 	}
 }
 
-// ---------------------------------------------------------------- CRD shapes (stub)
+// ---------------------------------------------------------------- secrets fixture
 
-func runCRDShape(p pool, fam string, id int, d string, thorough bool) Case {
-	return Case{Fam: fam, ID: id, Shape: d, Error: "not implemented"}
+var (
+	certOnce sync.Once
+	certPEM  []byte
+	keyPEM   []byte
+)
+
+func selfSigned() ([]byte, []byte) {
+	certOnce.Do(func() {
+		k, err := ecdsa.GenerateKey(elliptic.P256(), crand.Reader)
+		if err != nil {
+			panic(err)
+		}
+		tpl := &x509.Certificate{SerialNumber: big.NewInt(1), Subject: pkix.Name{CommonName: "c17.example.com"},
+			NotBefore: t0, NotAfter: t0.Add(100 * 365 * 24 * time.Hour), IsCA: true, BasicConstraintsValid: true,
+			KeyUsage: x509.KeyUsageCertSign | x509.KeyUsageDigitalSignature, DNSNames: []string{host1, host2}}
+		der, err := x509.CreateCertificate(crand.Reader, tpl, tpl, &k.PublicKey, k)
+		if err != nil {
+			panic(err)
+		}
+		kb, err := x509.MarshalECPrivateKey(k)
+		if err != nil {
+			panic(err)
+		}
+		certPEM = pem.EncodeToMemory(&pem.Block{Type: "CERTIFICATE", Bytes: der})
+		keyPEM = pem.EncodeToMemory(&pem.Block{Type: "EC PRIVATE KEY", Bytes: kb})
+	})
+	return certPEM, keyPEM
 }
 
-func allCRDDescrs(fam string) []string { return nil }
+func fillSecrets(c *k8s.VerifC17) {
+	crt, key := selfSigned()
+	mk := func(name string, typ api_v1.SecretType, data map[string][]byte) {
+		c.AddSecret(&api_v1.Secret{ObjectMeta: meta(name, 110), Type: typ, Data: data})
+	}
+	mk("tls-secret", api_v1.SecretTypeTLS, map[string][]byte{"tls.crt": crt, "tls.key": key})
+	mk("ca-secret", "nginx.org/ca", map[string][]byte{"ca.crt": crt})
+	mk("jwk-secret", "nginx.org/jwk", map[string][]byte{"jwk": []byte(`{"keys":[]}`)})
+	mk("htpasswd-secret", "nginx.org/htpasswd", map[string][]byte{"htpasswd": []byte("u:$apr1$x$y")})
+	mk("oidc-secret", "nginx.org/oidc", map[string][]byte{"client-secret": []byte("s3cret")})
+	mk("apikey-secret", "nginx.org/apikey", map[string][]byte{"client1": []byte("key1"), "client2": []byte("key2")})
+}
+
+// ---------------------------------------------------------------- CRD shapes
+
+func ip(i int) *int       { return &i }
+func bp(b bool) *bool     { return &b }
+func u16(i uint16) *uint16 { return &i }
+
+func actionOf(d byte) *conf_v1.Action {
+	red := &conf_v1.ActionRedirect{URL: "http://www.example.com", Code: 301}
+	hdr := &conf_v1.ProxyRequestHeaders{Set: []conf_v1.Header{{Name: "X-A", Value: "b"}}}
+	resp := &conf_v1.ProxyResponseHeaders{Hide: []string{"x-hide"}, Pass: []string{"x-pass"}, Ignore: []string{"Expires"},
+		Add: []conf_v1.AddHeader{{Header: conf_v1.Header{Name: "X-B", Value: "c"}, Always: true}}}
+	switch d {
+	case '0':
+		return nil
+	case '1':
+		return &conf_v1.Action{}
+	case '2':
+		return &conf_v1.Action{Pass: "u"}
+	case '3':
+		return &conf_v1.Action{Redirect: red}
+	case '4':
+		return &conf_v1.Action{Return: &conf_v1.ActionReturn{Code: 200, Type: "text/plain", Body: "ok"}}
+	case '5':
+		return &conf_v1.Action{Proxy: &conf_v1.ActionProxy{Upstream: "u"}}
+	case '6':
+		return &conf_v1.Action{Proxy: &conf_v1.ActionProxy{Upstream: "u", RequestHeaders: hdr, ResponseHeaders: resp}}
+	case '7':
+		hdr.Pass = bp(true)
+		return &conf_v1.Action{Proxy: &conf_v1.ActionProxy{Upstream: "u", RequestHeaders: hdr, ResponseHeaders: resp}}
+	case '8':
+		return &conf_v1.Action{Pass: "u", Redirect: red}
+	}
+	return nil
+}
+
+func action2Of(d byte) *conf_v1.Action {
+	switch d {
+	case '1':
+		return actionOf('2')
+	case '2':
+		return actionOf('4')
+	}
+	return nil
+}
+
+// routeOf: 12 digits a s sa sb m mc ma ms e er ed r (see coq/Shapes/Cases.v)
+func routeOf(d string) conf_v1.Route {
+	r := conf_v1.Route{Path: "/r", Action: actionOf(d[0])}
+	switch d[1] {
+	case '1':
+		r.Splits = []conf_v1.Split{{Weight: 100, Action: actionOf('2')}}
+	case '2':
+		r.Splits = []conf_v1.Split{{Weight: 50, Action: action2Of(d[2])}, {Weight: 50, Action: action2Of(d[3])}}
+	}
+	if d[4] == '1' {
+		m := conf_v1.Match{}
+		if d[5] == '1' {
+			m.Conditions = []conf_v1.Condition{{Header: "x-version", Value: "v2"}}
+		}
+		if d[6] == '1' {
+			m.Action = actionOf('2')
+		}
+		switch d[7] {
+		case '1':
+			m.Splits = []conf_v1.Split{{Weight: 50, Action: actionOf('2')}, {Weight: 50, Action: actionOf('2')}}
+		case '2':
+			m.Splits = []conf_v1.Split{{Weight: 50, Action: nil}, {Weight: 50, Action: actionOf('2')}}
+		}
+		r.Matches = []conf_v1.Match{m}
+	}
+	if d[8] == '1' {
+		e := conf_v1.ErrorPage{Codes: []int{502}}
+		if d[9] == '1' {
+			e.Return = &conf_v1.ErrorPageReturn{ActionReturn: conf_v1.ActionReturn{Code: 200, Type: "text/plain", Body: "sorry",
+				Headers: []conf_v1.Header{{Name: "x-e", Value: "1"}}}}
+		}
+		if d[10] == '1' {
+			e.Redirect = &conf_v1.ErrorPageRedirect{ActionRedirect: conf_v1.ActionRedirect{URL: "http://err.example.com", Code: 301}}
+		}
+		r.ErrorPages = []conf_v1.ErrorPage{e}
+	}
+	if d[11] == '1' {
+		r.Route = "default/z-vsr"
+	}
+	return r
+}
+
+func upstreamOf(d byte) conf_v1.Upstream {
+	u := conf_v1.Upstream{Name: "u", Service: "svc-a", Port: 80}
+	switch d {
+	case '1':
+		u.HealthCheck = &conf_v1.HealthCheck{Enable: true, Path: "/healthz"}
+	case '2':
+		u.HealthCheck = &conf_v1.HealthCheck{Enable: true, Path: "/healthz", TLS: &conf_v1.UpstreamTLS{Enable: true}}
+	case '3':
+		u.SessionCookie = &conf_v1.SessionCookie{Enable: true, Name: "srv"}
+	case '4':
+		u.Queue = &conf_v1.UpstreamQueue{Size: 10, Timeout: "5s"}
+	case '5':
+		u.ProxyBuffers = &conf_v1.UpstreamBuffers{Number: 4, Size: "8k"}
+	case '6':
+		u.Backup, u.BackupPort = "svc-ext", u16(80)
+	case '7':
+		u.Backup = "svc-ext"
+	case '8':
+		u.BackupPort = u16(80)
+	case '9':
+		u.MaxFails, u.MaxConns, u.Keepalive, u.ProxyBuffering = ip(1), ip(10), ip(8), bp(true)
+	}
+	return u
+}
+
+var passRoute = "200000000000"
+
+// vsOfShape: 14 digits 1 k payload
+func vsOfShape(d string) (*conf_v1.VirtualServer, error) {
+	if len(d) != 14 || d[0] != '1' {
+		return nil, fmt.Errorf("bad VirtualServer shape code %q", d)
+	}
+	vs := &conf_v1.VirtualServer{ObjectMeta: meta("z-vs", 9), Spec: conf_v1.VirtualServerSpec{IngressClass: "nginx", Host: host1}}
+	p := d[2:]
+	switch d[1] {
+	case '0':
+	case '1':
+		vs.Spec.Upstreams = []conf_v1.Upstream{upstreamOf('0')}
+		vs.Spec.Routes = []conf_v1.Route{routeOf(p)}
+	case '2':
+		vs.Spec.Upstreams = []conf_v1.Upstream{upstreamOf('0')}
+		vs.Spec.Routes = []conf_v1.Route{routeOf(passRoute)}
+		if p[0] == '1' {
+			t := &conf_v1.TLS{}
+			if p[1] == '1' {
+				t.Secret = "tls-secret"
+			}
+			switch p[2] {
+			case '1':
+				t.Redirect = &conf_v1.TLSRedirect{Enable: true}
+			case '2':
+				t.Redirect = &conf_v1.TLSRedirect{Enable: true, Code: ip(301), BasedOn: "scheme"}
+			}
+			if p[3] == '1' {
+				t.CertManager = &conf_v1.CertManager{ClusterIssuer: "issuer"}
+			}
+			vs.Spec.TLS = t
+		}
+		if p[4] == '1' {
+			vs.Spec.Listener = &conf_v1.VirtualServerListener{HTTP: "http-l", HTTPS: "https-l"}
+		}
+	case '3':
+		vs.Spec.Upstreams = []conf_v1.Upstream{upstreamOf(p[0])}
+		vs.Spec.Routes = []conf_v1.Route{routeOf(passRoute)}
+	default:
+		return nil, fmt.Errorf("bad VirtualServer shape code %q", d)
+	}
+	return vs, nil
+}
+
+func vsrOfShape(d string) (*conf_v1.VirtualServerRoute, error) {
+	if len(d) != 14 || d[0] != '1' {
+		return nil, fmt.Errorf("bad VirtualServerRoute shape code %q", d)
+	}
+	v := &conf_v1.VirtualServerRoute{ObjectMeta: meta("z-vsr", 9), Spec: conf_v1.VirtualServerRouteSpec{IngressClass: "nginx", Host: host1}}
+	p := d[2:]
+	switch d[1] {
+	case '0':
+	case '1':
+		v.Spec.Upstreams = []conf_v1.Upstream{upstreamOf('0')}
+		v.Spec.Subroutes = []conf_v1.Route{routeOf(p)}
+	case '3':
+		v.Spec.Upstreams = []conf_v1.Upstream{upstreamOf(p[0])}
+		v.Spec.Subroutes = []conf_v1.Route{routeOf(passRoute)}
+	default:
+		return nil, fmt.Errorf("bad VirtualServerRoute shape code %q", d)
+	}
+	return v, nil
+}
+
+// tsOfShape: 8 digits 1 l h t u p s a
+func tsOfShape(d string) (*conf_v1.TransportServer, error) {
+	if len(d) != 8 || d[0] != '1' {
+		return nil, fmt.Errorf("bad TransportServer shape code %q", d)
+	}
+	ts := &conf_v1.TransportServer{ObjectMeta: meta("z-ts", 9), Spec: conf_v1.TransportServerSpec{IngressClass: "nginx"}}
+	switch d[1] {
+	case '0':
+		ts.Spec.Listener = conf_v1.TransportServerListener{Name: "tcp-l", Protocol: "TCP"}
+	case '1':
+		ts.Spec.Listener = conf_v1.TransportServerListener{Name: "udp-l", Protocol: "UDP"}
+	case '2':
+		ts.Spec.Listener = conf_v1.TransportServerListener{Name: conf_v1.TLSPassthroughListenerName, Protocol: conf_v1.TLSPassthroughListenerProtocol}
+	}
+	if d[2] == '1' {
+		ts.Spec.Host = host2
+	}
+	switch d[3] {
+	case '1':
+		ts.Spec.TLS = &conf_v1.TransportServerTLS{}
+	case '2':
+		ts.Spec.TLS = &conf_v1.TransportServerTLS{Secret: "tls-secret"}
+	}
+	if d[4] != '0' {
+		u := conf_v1.TransportServerUpstream{Name: "u", Service: "svc-a", Port: 80}
+		switch d[4] {
+		case '2':
+			u.HealthCheck = &conf_v1.TransportServerHealthCheck{Enabled: true, Interval: "5s"}
+		case '3':
+			u.HealthCheck = &conf_v1.TransportServerHealthCheck{Enabled: true, Match: &conf_v1.TransportServerMatch{Send: "ping", Expect: "pong"}}
+		}
+		ts.Spec.Upstreams = []conf_v1.TransportServerUpstream{u}
+	}
+	switch d[5] {
+	case '1':
+		ts.Spec.UpstreamParameters = &conf_v1.UpstreamParameters{ConnectTimeout: "5s", NextUpstream: true, NextUpstreamTries: 2}
+	case '2':
+		ts.Spec.UpstreamParameters = &conf_v1.UpstreamParameters{UDPRequests: ip(1), UDPResponses: ip(1)}
+	}
+	if d[6] == '1' {
+		ts.Spec.SessionParameters = &conf_v1.SessionParameters{Timeout: "30s"}
+	}
+	switch d[7] {
+	case '1':
+		ts.Spec.Action = &conf_v1.TransportServerAction{}
+	case '2':
+		ts.Spec.Action = &conf_v1.TransportServerAction{Pass: "u"}
+	}
+	return ts, nil
+}
+
+func polKindInto(spec *conf_v1.PolicySpec, k, x, y byte) {
+	switch k {
+	case '0':
+		a := &conf_v1.AccessControl{}
+		if x == '1' {
+			a.Allow = []string{"10.0.0.0/8"}
+		}
+		if y == '1' {
+			a.Deny = []string{"10.1.0.0/16"}
+		}
+		spec.AccessControl = a
+	case '1':
+		r := &conf_v1.RateLimit{Rate: "10r/s", Key: "${binary_remote_addr}", ZoneSize: "10M"}
+		if x == '1' {
+			r.Delay, r.Burst, r.DryRun, r.RejectCode = ip(1), ip(2), bp(true), ip(503)
+		}
+		switch y {
+		case '1':
+			r.Condition = &conf_v1.RateLimitCondition{Default: true}
+		case '2':
+			r.Condition = &conf_v1.RateLimitCondition{JWT: &conf_v1.JWTCondition{Claim: "sub", Match: "gold"}}
+		}
+		spec.RateLimit = r
+	case '2':
+		spec.JWTAuth = &conf_v1.JWTAuth{Realm: "realm", Secret: "jwk-secret"}
+	case '3':
+		spec.BasicAuth = &conf_v1.BasicAuth{Realm: "realm", Secret: "htpasswd-secret"}
+	case '4':
+		m := &conf_v1.IngressMTLS{ClientCertSecret: "ca-secret", VerifyClient: "on"}
+		if x == '1' {
+			m.VerifyDepth = ip(1)
+		}
+		spec.IngressMTLS = m
+	case '5':
+		m := &conf_v1.EgressMTLS{TLSSecret: "tls-secret"}
+		if x == '1' {
+			m.VerifyDepth = ip(2)
+		}
+		spec.EgressMTLS = m
+	case '6':
+		o := &conf_v1.OIDC{AuthEndpoint: "https://idp.example.com/auth", TokenEndpoint: "https://idp.example.com/token",
+			JWKSURI: "https://idp.example.com/jwks", ClientID: "client", ClientSecret: "oidc-secret"}
+		if x == '1' {
+			o.ZoneSyncLeeway = ip(10)
+		}
+		spec.OIDC = o
+	case '7':
+		a := &conf_v1.APIKey{ClientSecret: "apikey-secret"}
+		if x == '1' {
+			s := &conf_v1.SuppliedIn{}
+			if y == '2' || y == '3' {
+				s.Header = []string{"X-API-Key"}
+			}
+			if y == '1' || y == '3' {
+				s.Query = []string{"apikey"}
+			}
+			a.SuppliedIn = s
+		}
+		spec.APIKey = a
+	case '8':
+		w := &conf_v1.WAF{Enable: true}
+		if x == '1' {
+			w.SecurityLog = &conf_v1.SecurityLog{Enable: true, LogDest: "stderr"}
+		}
+		switch y {
+		case '1':
+			w.SecurityLogs = []*conf_v1.SecurityLog{}
+		case '2':
+			w.SecurityLogs = []*conf_v1.SecurityLog{{Enable: true, LogDest: "stderr"}}
+		}
+		spec.WAF = w
+	}
+}
+
+// polOfShape: 5 digits 1 n kind x y
+func polOfShape(d string) (*conf_v1.Policy, error) {
+	if len(d) != 5 || d[0] != '1' {
+		return nil, fmt.Errorf("bad Policy shape code %q", d)
+	}
+	p := &conf_v1.Policy{ObjectMeta: meta("z-pol", 9), Spec: conf_v1.PolicySpec{IngressClass: "nginx"}}
+	switch d[1] {
+	case '0':
+	case '1':
+		polKindInto(&p.Spec, d[2], d[3], d[4])
+	case '2':
+		polKindInto(&p.Spec, d[2], d[3], d[4])
+		if d[2] == '0' {
+			polKindInto(&p.Spec, '1', '0', '0')
+		} else {
+			polKindInto(&p.Spec, '0', '1', '0')
+		}
+	}
+	return p, nil
+}
+
+func gcListeners() []conf_v1.Listener {
+	return []conf_v1.Listener{{Name: "http-l", Port: 8080, Protocol: "HTTP"}, {Name: "https-l", Port: 8443, Protocol: "HTTP", Ssl: true},
+		{Name: "tcp-l", Port: 9000, Protocol: "TCP"}, {Name: "udp-l", Port: 9001, Protocol: "UDP"}}
+}
+
+func gcObject(ls []conf_v1.Listener) *conf_v1.GlobalConfiguration {
+	return &conf_v1.GlobalConfiguration{ObjectMeta: meta("nginx-configuration", 5), Spec: conf_v1.GlobalConfigurationSpec{Listeners: ls}}
+}
+
+func gcOfShape(d string) (*conf_v1.GlobalConfiguration, error) {
+	if len(d) != 2 || d[0] != '1' {
+		return nil, fmt.Errorf("bad GlobalConfiguration shape code %q", d)
+	}
+	tcp := conf_v1.Listener{Name: "tcp-l", Port: 9000, Protocol: "TCP"}
+	switch d[1] {
+	case '0':
+		return gcObject(nil), nil
+	case '1':
+		return gcObject([]conf_v1.Listener{tcp}), nil
+	case '2':
+		return gcObject([]conf_v1.Listener{{Name: "bad", Port: 80, Protocol: "TCP"}}), nil
+	case '3':
+		return gcObject([]conf_v1.Listener{tcp, {Name: "tcp-l", Port: 9002, Protocol: "TCP"}}), nil
+	case '4':
+		return gcObject([]conf_v1.Listener{tcp, {Name: "udp-l", Port: 9001, Protocol: "UDP"}}), nil
+	}
+	return nil, fmt.Errorf("bad GlobalConfiguration shape code %q", d)
+}
+
+// --- prior states of the CRD families
+
+func olderVS(withRouteRef bool, policies []conf_v1.PolicyReference) *conf_v1.VirtualServer {
+	vs := &conf_v1.VirtualServer{ObjectMeta: meta("a-vs", 0), Spec: conf_v1.VirtualServerSpec{IngressClass: "nginx", Host: host1,
+		Upstreams: []conf_v1.Upstream{upstreamOf('0')}}}
+	if withRouteRef {
+		vs.Spec.Routes = []conf_v1.Route{{Path: "/r", Route: "default/z-vsr"}}
+	} else {
+		vs.Spec.Routes = []conf_v1.Route{{Path: "/r", Action: &conf_v1.Action{Pass: "u"}, Policies: policies}}
+	}
+	if policies != nil {
+		vs.Spec.Policies = policies
+		vs.Spec.TLS = &conf_v1.TLS{Secret: "tls-secret"}
+	}
+	return vs
+}
+
+func olderTS() *conf_v1.TransportServer {
+	return &conf_v1.TransportServer{ObjectMeta: meta("a-ts", 1), Spec: conf_v1.TransportServerSpec{IngressClass: "nginx",
+		Listener:  conf_v1.TransportServerListener{Name: "tcp-l", Protocol: "TCP"},
+		Upstreams: []conf_v1.TransportServerUpstream{{Name: "u", Service: "svc-a", Port: 80}},
+		Action:    &conf_v1.TransportServerAction{Pass: "u"}}}
+}
+
+func listenerVS() *conf_v1.VirtualServer {
+	vs := olderVS(false, nil)
+	vs.Spec.Listener = &conf_v1.VirtualServerListener{HTTP: "http-l", HTTPS: "https-l"}
+	return vs
+}
+
+// crdPrior returns the objects of prior state ctx of a family.
+func crdPrior(fam string, ctx int) []interface{} {
+	switch fam {
+	case "vs":
+		switch ctx {
+		case 1:
+			return []interface{}{olderVS(false, nil)}
+		case 2:
+			return []interface{}{gcObject(gcListeners())}
+		}
+	case "vsr":
+		if ctx == 1 {
+			return []interface{}{olderVS(true, nil)}
+		}
+	case "ts":
+		if ctx == 1 {
+			return []interface{}{gcObject(gcListeners())}
+		}
+	case "pol":
+		return []interface{}{olderVS(false, []conf_v1.PolicyReference{{Name: "z-pol"}})}
+	case "gc":
+		if ctx == 1 {
+			return []interface{}{olderTS(), listenerVS()}
+		}
+	}
+	return nil
+}
+
+func store(c *k8s.VerifC17, o interface{}, viaSync bool) {
+	if viaSync {
+		_ = c.Sync(o, false)
+		return
+	}
+	switch x := o.(type) {
+	case *conf_v1.VirtualServer:
+		c.Configuration().AddOrUpdateVirtualServer(x)
+	case *conf_v1.VirtualServerRoute:
+		c.Configuration().AddOrUpdateVirtualServerRoute(x)
+	case *conf_v1.TransportServer:
+		c.Configuration().AddOrUpdateTransportServer(x)
+	case *conf_v1.GlobalConfiguration:
+		_, _, _ = c.Configuration().AddOrUpdateGlobalConfiguration(x)
+	case *networking.Ingress:
+		c.Configuration().AddOrUpdateIngress(x)
+	}
+}
+
+type famSpec struct {
+	flagCombos []int // settings of the flags the model reads, in the model's order
+	otherBits  []int
+	nctx       int
+	group      int // digits per (flag setting, prior state)
+}
+
+var famSpecs = map[string]famSpec{
+	"vs":  {[]int{0, fCertMgr, fPlus, fPlus | fCertMgr}, []int{fAppProtect, fDos, fInternal, fSnippets, fTLSPass}, 3, 5},
+	"vsr": {[]int{0, fPlus}, []int{fAppProtect, fDos, fInternal, fSnippets, fCertMgr, fTLSPass}, 2, 5},
+	"ts":  {[]int{0, fTLSPass}, []int{fPlus, fAppProtect, fDos, fInternal, fSnippets, fCertMgr}, 2, 5},
+	"pol": {[]int{0, fAppProtect, fPlus, fPlus | fAppProtect}, []int{fDos, fInternal, fSnippets, fCertMgr, fTLSPass}, 1, 3},
+	"gc":  {[]int{0}, []int{fPlus, fAppProtect, fDos, fInternal, fSnippets, fCertMgr, fTLSPass}, 2, 5},
+}
+
+func crdObject(fam, d string) (interface{}, error) {
+	switch fam {
+	case "vs":
+		return vsOfShape(d)
+	case "vsr":
+		return vsrOfShape(d)
+	case "ts":
+		return tsOfShape(d)
+	case "pol":
+		return polOfShape(d)
+	case "gc":
+		return gcOfShape(d)
+	}
+	return nil, fmt.Errorf("unknown family %q", fam)
+}
+
+func deepCopy(o interface{}) interface{} {
+	switch x := o.(type) {
+	case *conf_v1.VirtualServer:
+		return x.DeepCopy()
+	case *conf_v1.VirtualServerRoute:
+		return x.DeepCopy()
+	case *conf_v1.TransportServer:
+		return x.DeepCopy()
+	case *conf_v1.Policy:
+		return x.DeepCopy()
+	case *conf_v1.GlobalConfiguration:
+		return x.DeepCopy()
+	case *networking.Ingress:
+		return x.DeepCopy()
+	case *api_v1.Service:
+		return x.DeepCopy()
+	case *api_v1.Secret:
+		return x.DeepCopy()
+	case *discovery_v1.EndpointSlice:
+		return x.DeepCopy()
+	}
+	return o
+}
+
+func crdCtl(fam string, f, ctx int, viaSync bool) *k8s.VerifC17 {
+	c := newCtl(f)
+	fillSecrets(c)
+	for _, o := range crdPrior(fam, ctx) {
+		store(c, o, viaSync)
+	}
+	return c
+}
+
+// runCRDOnce: validate, store, extend+generate, delete, sync for one object of a CRD family
+// (Policy: validate, extend, sync).
+func runCRDOnce(fam string, obj interface{}, f, ctx int, combo string, panics *[]PanicInfo) string {
+	spec := famSpecs[fam]
+	out := []byte(strings.Repeat("0", spec.group))
+	note := func(stage int, name, msg, site string) {
+		out[stage] = '2'
+		*panics = append(*panics, PanicInfo{Combo: combo, Stage: name, Msg: msg, Site: site})
+	}
+	c := crdCtl(fam, f, ctx, false)
+	syncStage := spec.group - 1
+	if fam == "pol" {
+		p := deepCopy(obj).(*conf_v1.Policy)
+		var verr error
+		if m, s := guard(func() { verr = c.ValidatePolicy(p) }); m != "" {
+			note(0, "validate", m, s)
+		} else if verr != nil {
+			out[0] = '1'
+		}
+		_ = c.AddPolicy(p)
+		if m, s := guard(func() {
+			// the VirtualServer of the prior state references the policy: re-arbitrate and extend
+			c.Configuration().AddOrUpdateVirtualServer(olderVS(false, []conf_v1.PolicyReference{{Name: "z-pol"}}))
+			c.ExtendAll()
+		}); m != "" {
+			note(1, "extend", m, s)
+		}
+	} else {
+		var verr error
+		o1 := deepCopy(obj)
+		if m, s := guard(func() {
+			switch x := o1.(type) {
+			case *conf_v1.VirtualServer:
+				verr = c.VSValidator().ValidateVirtualServer(x)
+			case *conf_v1.VirtualServerRoute:
+				verr = c.VSValidator().ValidateVirtualServerRoute(x)
+			case *conf_v1.TransportServer:
+				verr = c.TSValidator().ValidateTransportServer(x)
+			case *conf_v1.GlobalConfiguration:
+				verr = c.GCValidator().ValidateGlobalConfiguration(x)
+			}
+		}); m != "" {
+			note(0, "validate", m, s)
+		} else if verr != nil {
+			out[0] = '1'
+		}
+		o2 := deepCopy(obj)
+		var rejected bool
+		m, s := guard(func() {
+			var ch []k8s.ResourceChange
+			var pr []k8s.ConfigurationProblem
+			var err error
+			switch x := o2.(type) {
+			case *conf_v1.VirtualServer:
+				ch, pr = c.Configuration().AddOrUpdateVirtualServer(x)
+			case *conf_v1.VirtualServerRoute:
+				ch, pr = c.Configuration().AddOrUpdateVirtualServerRoute(x)
+			case *conf_v1.TransportServer:
+				ch, pr = c.Configuration().AddOrUpdateTransportServer(x)
+			case *conf_v1.GlobalConfiguration:
+				ch, pr, err = c.Configuration().AddOrUpdateGlobalConfiguration(x)
+			}
+			_, _, we := k8s.VerifC17ChangeSummary(ch)
+			rejected = we || k8s.VerifC17Rejected(pr) || err != nil
+		})
+		if m != "" {
+			note(1, "store", m, s)
+		} else {
+			if rejected {
+				out[1] = '1'
+			}
+			if m, s := guard(func() { c.ExtendAll() }); m != "" {
+				note(2, "extend", m, s)
+			}
+			if m, s := guard(func() {
+				switch o2.(type) {
+				case *conf_v1.VirtualServer:
+					c.Configuration().DeleteVirtualServer("default/z-vs")
+				case *conf_v1.VirtualServerRoute:
+					c.Configuration().DeleteVirtualServerRoute("default/z-vsr")
+				case *conf_v1.TransportServer:
+					c.Configuration().DeleteTransportServer("default/z-ts")
+				case *conf_v1.GlobalConfiguration:
+					c.Configuration().DeleteGlobalConfiguration()
+				}
+			}); m != "" {
+				note(3, "delete", m, s)
+			}
+		}
+	}
+	c2 := crdCtl(fam, f, ctx, true)
+	o3 := deepCopy(obj)
+	if m, s := guard(func() { _ = c2.Sync(o3, false); _ = c2.Sync(o3, true) }); m != "" {
+		note(syncStage, "sync", m, s)
+	}
+	return string(out)
+}
+
+func runCRDShape(p pool, fam string, id int, d string, thorough bool) Case {
+	cs := Case{Fam: fam, ID: id, Shape: d}
+	obj, err := crdObject(fam, d)
+	if err != nil {
+		cs.Error = err.Error()
+		return cs
+	}
+	adm := admitted(obj)
+	cs.Admitted = &adm
+	spec := famSpecs[fam]
+	nOther := 1 << len(spec.otherBits)
+	settings := []int{id % nOther}
+	if thorough {
+		settings = settings[:0]
+		for i := 0; i < nOther; i++ {
+			settings = append(settings, i)
+		}
+	}
+	cs.Others = len(settings)
+	for si, oi := range settings {
+		other := otherSetting(oi, spec.otherBits)
+		var sb strings.Builder
+		for _, fc := range spec.flagCombos {
+			for ctx := 0; ctx < spec.nctx; ctx++ {
+				combo := fmt.Sprintf("flags=%d ctx=%d", fc|other, ctx)
+				sb.WriteString(runCRDOnce(fam, obj, fc|other, ctx, combo, &cs.Panics))
+			}
+		}
+		if si == 0 {
+			cs.Obs = sb.String()
+		} else if sb.String() != cs.Obs {
+			cs.FlagDiff = append(cs.FlagDiff, FlagDiff{Other: other, Obs: sb.String()})
+		}
+	}
+	if len(cs.Panics) > 6 {
+		cs.Panics = cs.Panics[:6]
+	}
+	return cs
+}
+
+// allCRDDescrs enumerates the shape space of a CRD family (coq/Shapes/Model.v all_*_shapes).
+func allCRDDescrs(fam string) []string {
+	var routes []string
+	for a := 0; a <= 8; a++ {
+		for _, s := range []string{"000", "100", "200", "201", "202", "210", "211", "212", "220", "221", "222"} {
+			ms := []string{"0000"}
+			for _, c := range []string{"0", "1"} {
+				for _, ac := range []string{"0", "1"} {
+					for _, sp := range []string{"0", "1", "2"} {
+						ms = append(ms, "1"+c+ac+sp)
+					}
+				}
+			}
+			for _, m := range ms {
+				for _, e := range []string{"000", "100", "101", "110", "111"} {
+					for _, r := range []string{"0", "1"} {
+						routes = append(routes, fmt.Sprintf("%d", a)+s+m+e+r)
+					}
+				}
+			}
+		}
+	}
+	z := func(n int) string { return strings.Repeat("0", n) }
+	var out []string
+	switch fam {
+	case "vs", "vsr":
+		out = append(out, "10"+z(12))
+		for _, r := range routes {
+			out = append(out, "11"+r)
+		}
+		if fam == "vs" {
+			for _, l := range []string{"0", "1"} {
+				out = append(out, "120000"+l+z(7))
+				for _, s := range []string{"0", "1"} {
+					for _, rd := range []string{"0", "1", "2"} {
+						for _, c := range []string{"0", "1"} {
+							out = append(out, "121"+s+rd+c+l+z(7))
+						}
+					}
+				}
+			}
+		}
+		for u := 0; u <= 9; u++ {
+			out = append(out, fmt.Sprintf("13%d", u)+z(11))
+		}
+	case "ts":
+		for l := 0; l < 3; l++ {
+			for h := 0; h < 2; h++ {
+				for t := 0; t < 3; t++ {
+					for u := 0; u < 4; u++ {
+						for p := 0; p < 3; p++ {
+							for s := 0; s < 2; s++ {
+								for a := 0; a < 3; a++ {
+									out = append(out, fmt.Sprintf("1%d%d%d%d%d%d%d", l, h, t, u, p, s, a))
+								}
+							}
+						}
+					}
+				}
+			}
+		}
+	case "pol":
+		kinds := []string{"000", "001", "010", "011"}
+		for _, p := range []string{"0", "1"} {
+			for _, c := range []string{"0", "1", "2"} {
+				kinds = append(kinds, "1"+p+c)
+			}
+		}
+		kinds = append(kinds, "200", "300", "400", "410", "500", "510", "600", "610", "700", "710", "711", "712", "713")
+		for _, l := range []string{"0", "1"} {
+			for _, ls := range []string{"0", "1", "2"} {
+				kinds = append(kinds, "8"+l+ls)
+			}
+		}
+		out = append(out, "10000")
+		for _, k := range kinds {
+			out = append(out, "11"+k, "12"+k)
+		}
+	case "gc":
+		out = []string{"10", "11", "12", "13", "14"}
+	}
+	return out
+}
+
+// ---------------------------------------------------------------- admissibility (stub)
+
+func admitted(obj interface{}) bool { return true }
 
 func runRandom(id int, r *vh.Rng) Case { return Case{Fam: "rnd", ID: id} }
 func replayRandom(c Case) Case        { return c }
